@@ -564,6 +564,14 @@ fn cmd_life(a: &Args) -> i32 {
         if val == "weak" {
             tp::weak_keeper_clear();
         }
+        if mode == Mode::Token && val == "tp" && n % 50 == 0 && replay_exec.is_none() {
+            // directed: an exited thread's node must not be adopted while a writer from its previous ownership is inside
+            let d = wl_life::run_reclaim_under_writer::<Option<Tp<1>>, FillFastSlots>(&p, exec_no + 5_000_000);
+            runner::with(|r| {
+                r.execs += 1;
+                r.ops += d.ops as u64;
+            });
+        }
         n += 1;
         runner::with(|r| {
             r.execs += 1;
